@@ -143,6 +143,14 @@ func (e *Engine) schedPoint(what string) {
 	if !e.multi() {
 		return
 	}
+	if what != "yield" && e.cfg.Params["schedrepo"] == 1 {
+		// coarse mode: only lock acquisitions written in the repository's own
+		// code are scheduling points; a library's internal locking (afero's
+		// MemMapFs, the bbolt model) makes each of its calls one atomic step
+		if fr := th.top; fr != nil && (!fr.fi.isRepo || fr.fi.harness == 2) {
+			return
+		}
+	}
 	next := e.pickThread(what)
 	if next == th {
 		return
